@@ -210,14 +210,6 @@ Proof.
   symmetry. apply nansum_as_merge; apply series_nansum_squares_nonnull.
 Qed.
 
-(* core.py: reducer used to merge the chunk results of GroupBy.<func_name> *)
-Definition core_merge (r : rname) : rname :=
-  match r with
-  | Rnansum | Rnansum_squares | Rsum => Rnansum
-  | Rnanmin => Rnanmin | Rnanmax => Rnanmax | Rfirst => Rfirst | Rlast => Rlast
-  | other => other
-  end.
-
 Inductive api_value_reducer : rname -> Prop :=
   | av_nansum : api_value_reducer Rnansum
   | av_nansum_squares : api_value_reducer Rnansum_squares
